@@ -153,6 +153,16 @@ func runCase(t *testing.T, c *Case) (res *RunResult, w *World) {
 				if cl.Plan.Hello != nil && cl.Plan.Hello.NoExtensions {
 					w.Probes["hello_without_extensions"]++
 				}
+				if rh, err := ParseHelloRecord(cl.HelloRecord()); err == nil {
+					for _, e := range rh.Exts {
+						if e.Type == 41 {
+							w.Probes["hello_with_pre_shared_key"]++
+						}
+					}
+					if len(rh.Ciphers) > 255 || len(rh.Exts) > 255 {
+						w.Probes["hello_with_more_than_255_ciphers_or_extensions"]++
+					}
+				}
 			case cl.HandshakeErr != "":
 				w.Probes["handshake_failed"]++
 				e := cl.HandshakeErr
